@@ -1542,19 +1542,20 @@ class PkgRelation(object):
         """
         def pp_arch(arch_spec):
             # type: (PkgRelation.ArchRestriction) -> str
+            enabled, arch = arch_spec
             return '%s%s' % (
-                '' if arch_spec.enabled else '!',
-                arch_spec.arch,
+                '' if enabled else '!',
+                arch,
             )
 
         def pp_restrictions(restrictions):
             # type: (List[PkgRelation.BuildRestriction]) -> str
             s = []
-            for term in restrictions:
+            for enabled, profile in restrictions:
                 s.append(
                     '%s%s' % (
-                        '' if term.enabled else '!',
-                        term.profile
+                        '' if enabled else '!',
+                        profile
                     )
                 )
             return '<%s>' % ' '.join(s)
